@@ -63,6 +63,9 @@ type Script struct {
 	Code      uint32   `json:"code"`
 	Msg       string   `json:"msg"`
 	Detail    bool     `json:"detail"`
+	// HTTP1 (http front): the request carries the headers an HTTP/1.1 client adds about its own connection
+	// (browsers send Connection: keep-alive); they describe the hop, not the call
+	HTTP1 string `json:"http1"`
 }
 
 type backendLog struct {
@@ -322,6 +325,17 @@ func runHTTP(s Script) (clientView, int) {
 	var v clientView
 	hdr := http.Header{}
 	hdr.Set("Content-Type", "application/json")
+	switch s.HTTP1 {
+	case "keep-alive":
+		hdr.Set("Connection", "keep-alive")
+	case "keep-alive-timeout":
+		hdr.Set("Connection", "keep-alive")
+		hdr.Set("Keep-Alive", "timeout=5, max=100")
+	case "close":
+		hdr.Set("Connection", "close")
+	case "proxy":
+		hdr.Set("Proxy-Connection", "keep-alive")
+	}
 	for _, kv := range s.MD {
 		for _, val := range kv.Vals {
 			if strings.HasSuffix(kv.Key, "-bin") {
@@ -533,6 +547,9 @@ func genScript(t *rapid.T) Script {
 			}
 		}
 		s.MD = append(s.MD, kv)
+	}
+	if s.Front == "http" {
+		s.HTTP1 = rapid.SampledFrom([]string{"", "", "", "keep-alive", "keep-alive-timeout", "close", "proxy"}).Draw(t, "http1")
 	}
 	s.PingPong = rapid.Bool().Draw(t, "pingpong")
 	s.Replies = rapid.IntRange(0, 5).Draw(t, "replies")
